@@ -188,7 +188,8 @@ class Harness:
 
     def canary_snapshot(self):
         c = self.canary
-        return (sorted(k for k in vars(c) if not k.startswith('__')), sorted(vars(c.Canary)), dict(vars(c.instance)), dict(vars(c.Plain)).keys() and sorted(vars(c.Plain)), c.VALUE)
+        return (sorted(k for k in vars(c) if not k.startswith('__')), sorted(vars(c.Canary)), dict(vars(c.instance)), dict(vars(c.Plain)).keys() and sorted(vars(c.Plain)), c.VALUE,
+                c.ITER.__length_hint__())        # an iterator named by a document must not be advanced
 
     def load(self, text, lname, as_bytes=False, fn=None):
         """Returns (status, result-or-exception, flagged events)."""
